@@ -449,7 +449,7 @@ class PipelineCheck(Check):
     def budget(self, tier):
         if tier == "quick":
             return {"runs": 160, "chunk": 1, "wall": 220, "run_timeout": 300, "min_wall": 45, "max_cells": 450}
-        return {"runs": 2400, "chunk": 2, "wall": 1750, "run_timeout": 900, "min_wall": 300, "max_cells": 1500}
+        return {"runs": 3600, "chunk": 2, "wall": 1750, "run_timeout": 900, "min_wall": 300, "max_cells": 1500}
 
     def preload(self):
         import molgri.io  # noqa: F401
@@ -935,7 +935,7 @@ class PersistenceCheck(Check):
     def budget(self, tier):
         if tier == "quick":
             return {"runs": 600, "chunk": 6, "wall": 150, "run_timeout": 200, "min_wall": 60}
-        return {"runs": 16000, "chunk": 16, "wall": 1500, "run_timeout": 600, "min_wall": 200}
+        return {"runs": 7000, "chunk": 8, "wall": 1600, "run_timeout": 600, "min_wall": 200}
 
     def preload(self):
         import molgri.io  # noqa: F401
